@@ -31,7 +31,7 @@ type c02Plan struct {
 	N       int   `json:"n"`
 	T       int   `json:"t"`
 	Tape    []int `json:"tape"`
-	Deviant int   `json:"deviant"` // -1: honest ceremony; else the participant whose key announcement carries another polynomial
+	Deviant int   `json:"deviant"`  // -1: honest ceremony; else the participant whose key announcement carries another polynomial
 	DevHold bool  `json:"dev_hold"` // the deviant's operator answers the key step only when nothing else can happen (its announcement comes last)
 	DevMode int   `json:"dev_mode"` // 0: same constant term, other higher coefficient; 1: other constant term too; 2: one coefficient fewer
 }
